@@ -170,3 +170,32 @@ class FilterRef:
         fmin = min(e[0] for e in c)
         c = [e for e in c if e[0] <= fmin]
         return c[-1]
+
+
+def internal_slacks(stmt, con_raw):
+    """The solver-side values of the nonlinear constraints for raw user replies, as documented:
+    per constraint object (in list order) and among its non-equality components first `lb - c` for every finite
+    lower limit, then `c - ub` for every finite upper limit (inequality slacks, feasible when <= 0);
+    equality components (limits equal to rounding) give `c - midpoint`.  Values are barrier-clipped.
+    Returns (cub, ceq) or None if a reply is missing."""
+    from .scenario import arrays_tol
+    objs = sorted(enumerate(stmt.get("nonlinear") or []),
+                  key=lambda t: t[1].get("pos", 10 ** 6 + t[0]))
+    cub, ceq = [], []
+    for j, ns in objs:
+        vals = con_raw.get(j)
+        if vals is None:
+            return None
+        lb, ub = nl_limits(ns)
+        tol = arrays_tol([v for v in lb], [v for v in ub])
+        iseq = [abs(b - a) <= tol if (a == a and b == b) else False for a, b in zip(lb, ub)]
+        for ci, c in enumerate(vals):
+            if not iseq[ci] and lb[ci] > -math.inf:
+                cub.append(clip_barrier(lb[ci] - c))
+        for ci, c in enumerate(vals):
+            if not iseq[ci] and ub[ci] < math.inf:
+                cub.append(clip_barrier(c - ub[ci]))
+        for ci, c in enumerate(vals):
+            if iseq[ci]:
+                ceq.append(clip_barrier(c - 0.5 * (ub[ci] + lb[ci])))
+    return cub, ceq
